@@ -595,6 +595,28 @@ pub fn struct_family(tier: Tier) -> Vec<Member> {
         }
     }
     if tier == Tier::Thorough {
+        // all triples of dimensions, over a reduced variant set (every 3rd variant of the large dimensions)
+        let red = |d: &str| -> Vec<usize> {
+            let n = dim_count(d);
+            if n <= 9 { (1..n).collect() } else { (1..n).step_by(3).collect() }
+        };
+        for (i, d1) in DIMS.iter().enumerate() {
+            for (j, d2) in DIMS.iter().enumerate().skip(i + 1) {
+                for d3 in DIMS.iter().skip(j + 1) {
+                    for v1 in red(d1) {
+                        for v2 in red(d2) {
+                            for v3 in red(d3) {
+                                out.push(Member {
+                                    family: "struct",
+                                    coords: format!("{}={},{}={},{}={}", d1, v1, d2, v2, d3, v3),
+                                    wasm: build_struct(&[(d1, v1), (d2, v2), (d3, v3)]),
+                                });
+                            }
+                        }
+                    }
+                }
+            }
+        }
         for (i, d1) in DIMS.iter().enumerate() {
             for d2 in DIMS.iter().skip(i + 1) {
                 for v1 in 1..dim_count(d1) {
